@@ -1,1016 +1,87 @@
 /-
-  Pfb.C05.Lemmas — simulation between the reference semantics (`Pfb.PyCore.Exec`) and the analysis model
-  (`Pfb.PyCore.Analyze`) on fragment A.
+  Pfb.C05.Lemmas — fragment A is contained in fragment B (without dotted names); its theorems are corollaries of
+  the fragment-B simulation in `Pfb.C05.LemmasB`.
 -/
-import Pfb.C05.Model
-import Pfb.PyCore.AnalyzeLemmas
+import Pfb.C05.LemmasB
 namespace Pfb.C05
 open Pfb Pfb.PyCore
 
-/-! ### the `X` monad -/
-
-theorem X.bind_def {α β} (m : X α) (f : α → X β) (s : XState) :
-    (m >>= f) s = match m s with
-      | (s', .ok a) => f a s'
-      | (s', .error e) => (s', .error e) := rfl
-
-theorem X.pure_def {α} (a : α) (s : XState) : (pure a : X α) s = (s, .ok a) := rfl
-
-/-! ### reference semantics on fragment-A expressions -/
-
-def unboundX (s : XState) (n : Str) : Prop := assocGet n s.globals = none ∧ s.builtins.contains n = false
-
-/-- `s'` differs from `s` at most in the record of raised exceptions -/
-def SameUpToLog (s s' : XState) : Prop := s' = { s with ne := s'.ne, otherRaised := s'.otherRaised }
-
-theorem SameUpToLog.refl (s : XState) : SameUpToLog s s := rfl
-
-/-- what evaluating (part of) a fragment-A expression at module level can do -/
-structure EvalA {α} (s : XState) (names : List Str) (noIf : Bool) (res : XState × Except Exc α) : Prop where
-  ok : ∀ v, res.2 = .ok v → res.1 = s ∧ (noIf = true → ∀ n ∈ names, ¬ unboundX s n)
-  err : ∀ x, res.2 = .error x → SameUpToLog s res.1 ∧
-    ((∃ n, x = .nameError n ∧ res.1.ne = addOnce n s.ne ∧ n ∈ names ∧ unboundX s n) ∨
-     ((∀ n, x ≠ .nameError n) ∧ res.1.ne = s.ne))
-
-theorem EvalA.pure {α} (s : XState) (a : α) : EvalA s [] true ((Pure.pure a : X α) s) :=
-  ⟨fun _ _ => ⟨rfl, fun _ n hn => by simp at hn⟩, fun x hx => by cases hx⟩
-
-theorem EvalA.mono {α} {s : XState} {N N' : List Str} {b : Bool} {res : XState × Except Exc α}
-    (h : EvalA s N b res) (hsub : ∀ n ∈ N, n ∈ N') : EvalA s N' false res :=
-  ⟨fun v hv => ⟨(h.ok v hv).1, fun hf => by cases hf⟩,
-   fun x hx => by
-    obtain ⟨h1, h2⟩ := h.err x hx
-    refine ⟨h1, ?_⟩
-    rcases h2 with ⟨n, hn, hne, hmem, hu⟩ | h2
-    · exact .inl ⟨n, hn, hne, hsub n hmem, hu⟩
-    · exact .inr h2⟩
-
-theorem EvalA.mono' {α} {s : XState} {N N' : List Str} {b : Bool} {res : XState × Except Exc α}
-    (h : EvalA s N b res) (hsub : ∀ n ∈ N, n ∈ N') (hsup : b = true → ∀ n ∈ N', n ∈ N) : EvalA s N' b res :=
-  ⟨fun v hv => ⟨(h.ok v hv).1, fun hf n hn => (h.ok v hv).2 hf n (hsup hf n hn)⟩,
-   fun x hx => by
-    obtain ⟨h1, h2⟩ := h.err x hx
-    refine ⟨h1, ?_⟩
-    rcases h2 with ⟨n, hn, hne, hmem, hu⟩ | h2
-    · exact .inl ⟨n, hn, hne, hsub n hmem, hu⟩
-    · exact .inr h2⟩
-
-/-- sequencing: the continuation runs from the unchanged state -/
-theorem EvalA.bind {α β} {s : XState} {N1 N2 : List Str} {b1 b2 : Bool} {m : X α} {f : α → X β}
-    (h1 : EvalA s N1 b1 (m s)) (h2 : ∀ a, EvalA s N2 b2 (f a s)) :
-    EvalA s (N1 ++ N2) (b1 && b2) ((m >>= f) s) := by
-  rw [X.bind_def]
-  cases hm : m s with
-  | mk s' r =>
-    cases r with
-    | ok a =>
-      rw [hm] at h1
-      obtain ⟨hs, hn1⟩ := h1.ok a rfl
-      simp only at hs
-      subst hs
-      simp only
-      constructor
-      · intro v hv
-        obtain ⟨hs2, hn2⟩ := (h2 a).ok v hv
-        refine ⟨hs2, fun hb n hn => ?_⟩
-        simp only [Bool.and_eq_true] at hb
-        rcases List.mem_append.mp hn with hn | hn
-        · exact hn1 hb.1 n hn
-        · exact hn2 hb.2 n hn
-      · intro x hx
-        obtain ⟨hs2, h3⟩ := (h2 a).err x hx
-        refine ⟨hs2, ?_⟩
-        rcases h3 with ⟨n, hn, hne, hmem, hu⟩ | h3
-        · exact .inl ⟨n, hn, hne, List.mem_append_right _ hmem, hu⟩
-        · exact .inr h3
-    | error e =>
-      rw [hm] at h1
-      simp only
-      constructor
-      · intro v hv; cases hv
-      · intro x hx
-        have hex : e = x := by simpa using hx
-        subst hex
-        obtain ⟨hs2, h3⟩ := h1.err e rfl
-        refine ⟨hs2, ?_⟩
-        rcases h3 with ⟨n, hn, hne, hmem, hu⟩ | h3
-        · exact .inl ⟨n, hn, hne, List.mem_append_left _ hmem, hu⟩
-        · exact .inr h3
-
-theorem EvalA.raiseOther {α} (s : XState) : EvalA s [] true ((raiseOther : X α) s) := by
-  constructor
-  · intro v hv; cases hv
-  · intro x hx
-    have : x = .other := by simpa [Pfb.PyCore.raiseOther] using hx.symm
-    subst this
-    exact ⟨rfl, .inr ⟨(fun n hn => nomatch hn), rfl⟩⟩
-
-theorem EvalA.fuel {α} (s : XState) : EvalA s [] true ((X.throw .fuel : X α) s) := by
-  constructor
-  · intro v hv; cases hv
-  · intro x hx
-    have : x = .fuel := by simpa [X.throw] using hx.symm
-    subst this
-    exact ⟨rfl, .inr ⟨(fun n hn => nomatch hn), rfl⟩⟩
-
-theorem EvalA.fuel_any {α} (s : XState) (N : List Str) (b : Bool) : EvalA s N b ((X.throw .fuel : X α) s) := by
-  constructor
-  · intro v hv; cases hv
-  · intro x hx
-    have : x = .fuel := by simpa [X.throw] using hx.symm
-    subst this
-    exact ⟨rfl, .inr ⟨(fun n hn => nomatch hn), rfl⟩⟩
-
-theorem EvalA.readName (s : XState) (n : Str) : EvalA s [n] true (readName {} n s) := by
-  simp only [Pfb.PyCore.readName, globalLookup]
-  cases hg : assocGet n s.globals with
-  | some v =>
-    simp only
-    exact ⟨fun _ _ => ⟨rfl, fun _ m hm => by
-      simp only [List.mem_singleton] at hm; subst hm
-      intro hu; rw [hu.1] at hg; cases hg⟩, fun x hx => by cases hx⟩
-  | none =>
-    simp only
-    split
-    · rename_i hb
-      exact ⟨fun _ _ => ⟨rfl, fun _ m hm => by
-        simp only [List.mem_singleton] at hm; subst hm
-        intro hu; rw [hu.2] at hb; cases hb⟩, fun x hx => by cases hx⟩
-    · rename_i hb
-      constructor
-      · intro v hv; cases hv
-      · intro x hx
-        simp only [raiseName] at hx ⊢
-        cases hx
-        exact ⟨rfl, .inl ⟨n, rfl, rfl, List.mem_singleton.mpr rfl, hg, by simpa using hb⟩⟩
-
-theorem EvalA.binop (s : XState) (a b : RVal) : EvalA s [] true (binop a b s) := by
-  unfold Pfb.PyCore.binop
-  split <;> first | exact EvalA.pure s _ | exact EvalA.raiseOther s
-
-theorem EvalA.subscriptGet (s : XState) (a : RVal) : EvalA s [] true (subscriptGet a s) := by
-  unfold Pfb.PyCore.subscriptGet
-  split <;> first | exact EvalA.pure s _ | exact EvalA.raiseOther s
-
-theorem evalA (f : Nat) :
-    (∀ e s, fragAExpr e = true → EvalA s (namesOf e) (noIfExpr e) (evalExpr f {} e s)) ∧
-    (∀ es s, fragAExprs es = true → EvalA s (namesOfs es) (noIfExprs es) (evalExprs f {} es s)) := by
-  induction f with
-  | zero =>
-    constructor
-    · intro e s _
-      rw [evalExpr]
-      exact EvalA.fuel_any s _ _
-    · intro es s _
-      rw [evalExprs]
-      exact EvalA.fuel_any s _ _
-  | succ f ih =>
-    obtain ⟨ihe, ihes⟩ := ih
-    constructor
-    · intro e s hfr
-      cases e with
-      | name n =>
-        simp only [evalExpr, namesOf, noIfExpr]
-        exact EvalA.readName s n
-      | const => simp only [evalExpr, namesOf, noIfExpr]; exact EvalA.pure s _
-      | bool b => simp only [evalExpr, namesOf, noIfExpr]; exact EvalA.pure s _
-      | str _ => simp only [evalExpr, namesOf, noIfExpr]; exact EvalA.pure s _
-      | binop l r =>
-        simp only [fragAExpr, Bool.and_eq_true] at hfr
-        simp only [evalExpr, namesOf, noIfExpr]
-        have h := EvalA.bind (ihe l s hfr.1) (fun a => EvalA.bind (ihe r s hfr.2) (fun b => EvalA.binop s a b))
-        simpa using h
-      | subscript v i =>
-        simp only [fragAExpr, Bool.and_eq_true] at hfr
-        simp only [evalExpr, namesOf, noIfExpr]
-        have h := EvalA.bind (ihe v s hfr.1) (fun a => EvalA.bind (ihe i s hfr.2) (fun _ => EvalA.subscriptGet s a))
-        simpa using h
-      | tuple es =>
-        simp only [fragAExpr] at hfr
-        simp only [evalExpr, namesOf, noIfExpr]
-        have h := EvalA.bind (ihes es s hfr) (fun vs => EvalA.pure s (RVal.seq vs))
-        simpa using h
-      | list es =>
-        simp only [fragAExpr] at hfr
-        simp only [evalExpr, namesOf, noIfExpr]
-        have h := EvalA.bind (ihes es s hfr) (fun vs => EvalA.pure s (RVal.seq vs))
-        simpa using h
-      | ifExp t a b =>
-        simp only [fragAExpr, Bool.and_eq_true] at hfr
-        simp only [evalExpr, namesOf, noIfExpr]
-        have hbr : ∀ tv : RVal, EvalA s (namesOf a ++ namesOf b) false
-            ((if truthy tv = true then evalExpr f {} a else evalExpr f {} b) s) := by
-          intro tv
-          split
-          · exact (ihe a s hfr.1.2).mono (fun n hn => List.mem_append_left _ hn)
-          · exact (ihe b s hfr.2).mono (fun n hn => List.mem_append_right _ hn)
-        have h := EvalA.bind (ihe t s hfr.1.1) hbr
-        simpa [List.append_assoc] using h
-      | attr _ _ => simp [fragAExpr] at hfr
-      | call _ _ => simp [fragAExpr] at hfr
-      | lambda _ _ => simp [fragAExpr] at hfr
-      | comp _ _ _ => simp [fragAExpr] at hfr
-    · intro es s hfr
-      cases es with
-      | nil => simp only [evalExprs, namesOfs, noIfExprs]; exact EvalA.pure s _
-      | cons e es =>
-        simp only [fragAExprs, Bool.and_eq_true] at hfr
-        simp only [evalExprs, namesOfs, noIfExprs]
-        have h := EvalA.bind (ihe e s hfr.1) (fun v => EvalA.bind (ihes es s hfr.2) (fun vs => EvalA.pure s (v :: vs)))
-        simpa using h
-
-/-! ### analysis on fragment-A expressions -/
-
-theorem splitDots_simple {n : Str} (h : n.contains '.' = false) : splitDots n = [n] := by
-  induction n with
-  | nil => rfl
-  | cons c cs ih =>
-    simp only [List.contains_cons, Bool.or_eq_false_iff, beq_eq_false_iff_ne, ne_eq] at h
-    unfold splitDots
-    have hc : ¬ c = '.' := fun hh => h.1 hh.symm
-    rw [if_neg hc, ih h.2]
-
-theorem simpleName_split {n : Str} (h : simpleName n = true) : splitDots n = [n] := by
-  simp only [simpleName, Bool.and_eq_true, Bool.not_eq_true'] at h
-  exact splitDots_simple h.1
-
-def unboundA (st : AState) (n : Str) : Prop := ∀ i ∈ normIds st.stack.ids, (st.heap.get i).get n = none
-
-def noStarA (st : AState) : Prop := hasStar st.heap st.stack.ids = false
-
-theorem sni_simple (reg : Registry) (heap : Heap) (ids : List Nat) {n : Str} (h : simpleName n = true) :
-    (symbolNeedsImport reg heap ids n).1 = true ↔ ∀ i ∈ normIds ids, (heap.get i).get n = none := by
-  rw [symbolNeedsImport_spec, simpleName_split h]
-  simp only [prefixes, List.map_nil, List.mem_singleton, forall_eq, joinDots, List.length_singleton,
-    List.drop_one, List.tail_cons]
-  constructor
-  · intro hh i hi
-    cases hg : (heap.get i).get n with
-    | none => rfl
-    | some var =>
-      obtain ⟨pre, part, post, _, _, hnil, _⟩ := hh i hi var hg
-      simp at hnil
-  · intro hh i hi var hg
-    rw [hh i hi] at hg; cases hg
-
-/-- what the analysis of (part of) a fragment-A expression does at module level -/
-structure AnaA (st st' : AState) (names : List Str) : Prop where
-  heap : st'.heap = st.heap
-  stack : st'.stack = st.stack
-  inFunc : st'.inFunc = st.inFunc
-  deferred : st'.deferred = st.deferred
-  mono : ∀ m ∈ st.missing, m ∈ st'.missing
-  found : ∀ n ∈ names, simpleName n = true → unboundA st n → noStarA st → ∃ m ∈ st'.missing, m.name = n
-  same : (∀ n ∈ names, ¬ unboundA st n) → st'.missing = st.missing
-
-theorem AnaA.refl (st : AState) : AnaA st st [] :=
-  ⟨rfl, rfl, rfl, rfl, fun _ h => h, fun _ h => by simp at h, fun _ => rfl⟩
-
-theorem AnaA.trans {a b c : AState} {N1 N2 : List Str} (h1 : AnaA a b N1) (h2 : AnaA b c N2) : AnaA a c (N1 ++ N2) := by
-  have hu : ∀ n, unboundA b n ↔ unboundA a n := by
-    intro n; unfold unboundA; rw [h1.heap, h1.stack]
-  have hs : noStarA b ↔ noStarA a := by unfold noStarA; rw [h1.heap, h1.stack]
-  constructor
-  · rw [h2.heap, h1.heap]
-  · rw [h2.stack, h1.stack]
-  · rw [h2.inFunc, h1.inFunc]
-  · rw [h2.deferred, h1.deferred]
-  · intro m hm; exact h2.mono m (h1.mono m hm)
-  · intro n hn hsn hun hns
-    rcases List.mem_append.mp hn with hn | hn
-    · obtain ⟨m, hm, hmn⟩ := h1.found n hn hsn hun hns
-      exact ⟨m, h2.mono m hm, hmn⟩
-    · exact h2.found n hn hsn ((hu n).mpr hun) (hs.mpr hns)
-  · intro hall
-    rw [h2.same (fun n hn => fun hc => hall n (List.mem_append_right _ hn) ((hu n).mp hc)),
-        h1.same (fun n hn => hall n (List.mem_append_left _ hn))]
-
-theorem anaA_load (reg : Registry) (st : AState) (n : Str) (hf : st.inFunc = false) (hsn : simpleName n = true) :
-    AnaA st (runOps reg st [.load n]) [n] := by
-  have hrun : runOps reg st [.load n] = checkLoad reg st n st.stack.ids st.line := by
-    simp [runOps, step, hf]
-  rw [hrun]
-  unfold checkLoad
-  dsimp only
-  by_cases hneed : ((symbolNeedsImport reg st.heap st.stack.ids n).1 && !hasStar (st.emit (symbolNeedsImport reg st.heap st.stack.ids n).2).heap st.stack.ids) = true
-  · rw [if_pos hneed]
-    split
-    · rename_i hany
-      refine ⟨rfl, rfl, rfl, rfl, fun _ h => h, ?_, fun _ => rfl⟩
-      intro m hm _ _ _
-      simp only [List.mem_singleton] at hm; subst hm
-      simp only [AState.emit, List.any_eq_true, decide_eq_true_eq] at hany
-      obtain ⟨x, hx, _, hxn⟩ := hany
-      exact ⟨x, hx, hxn⟩
-    · refine ⟨rfl, rfl, rfl, rfl, fun m h => List.mem_append_left _ h, ?_, ?_⟩
-      · intro m hm _ _ _
-        simp only [List.mem_singleton] at hm; subst hm
-        exact ⟨_, List.mem_append_right _ (List.mem_singleton.mpr rfl), rfl⟩
-      · intro hall
-        exfalso
-        -- `n` is bound, so it cannot have needed import
-        have hb := hall n (List.mem_singleton.mpr rfl)
-        simp only [Bool.and_eq_true] at hneed
-        exact hb ((sni_simple reg st.heap st.stack.ids hsn).mp hneed.1)
-  · rw [if_neg hneed]
-    refine ⟨rfl, rfl, rfl, rfl, fun _ h => h, ?_, fun _ => rfl⟩
-    intro m hm _ hun hns
-    simp only [List.mem_singleton] at hm; subst hm
-    exfalso
-    apply hneed
-    simp only [Bool.and_eq_true, Bool.not_eq_true']
-    exact ⟨(sni_simple reg st.heap st.stack.ids hsn).mpr hun, hns⟩
-
-theorem AnaA.append {reg : Registry} {st : AState} {a b : List Op} {N1 N2 : List Str}
-    (h1 : AnaA st (runOps reg st a) N1) (h2 : AnaA (runOps reg st a) (runOps reg (runOps reg st a) b) N2) :
-    AnaA st (runOps reg st (a ++ b)) (N1 ++ N2) := by
-  rw [runOps_append]; exact h1.trans h2
-
 mutual
-  theorem anaA_expr (fx : Fixes) (reg : Registry) : ∀ (e : Expr) (st : AState), fragAExpr e = true → st.inFunc = false →
-      AnaA st (runOps reg st (cExpr fx e)) (namesOf e)
-    | .name n, st, hfr, hf => by
-      simp only [cExpr, namesOf]
-      exact anaA_load reg st n hf (by simpa [fragAExpr] using hfr)
-    | .const, st, _, _ => by simp only [cExpr, namesOf]; exact AnaA.refl st
-    | .bool _, st, _, _ => by simp only [cExpr, namesOf]; exact AnaA.refl st
-    | .str _, st, _, _ => by simp only [cExpr, namesOf]; exact AnaA.refl st
-    | .binop l r, st, hfr, hf => by
-      simp only [fragAExpr, Bool.and_eq_true] at hfr
-      simp only [cExpr, namesOf]
-      have h1 := anaA_expr fx reg l st hfr.1 hf
-      exact AnaA.append h1 (anaA_expr fx reg r _ hfr.2 (by rw [h1.inFunc, hf]))
-    | .subscript v i, st, hfr, hf => by
-      simp only [fragAExpr, Bool.and_eq_true] at hfr
-      simp only [cExpr, namesOf]
-      have h1 := anaA_expr fx reg v st hfr.1 hf
-      exact AnaA.append h1 (anaA_expr fx reg i _ hfr.2 (by rw [h1.inFunc, hf]))
-    | .ifExp t a b, st, hfr, hf => by
-      simp only [fragAExpr, Bool.and_eq_true] at hfr
-      simp only [cExpr, namesOf]
-      have h1 := anaA_expr fx reg t st hfr.1.1 hf
-      have h2 := anaA_expr fx reg a _ hfr.1.2 (by rw [h1.inFunc, hf])
-      have h12 := AnaA.append h1 h2
-      exact AnaA.append h12 (anaA_expr fx reg b _ hfr.2 (by rw [h12.inFunc, hf]))
-    | .tuple es, st, hfr, hf => by
-      simp only [fragAExpr] at hfr
-      simp only [cExpr, namesOf]
-      exact anaA_exprs fx reg es st hfr hf
-    | .list es, st, hfr, hf => by
-      simp only [fragAExpr] at hfr
-      simp only [cExpr, namesOf]
-      exact anaA_exprs fx reg es st hfr hf
-    | .attr _ _, _, hfr, _ => by simp [fragAExpr] at hfr
-    | .call _ _, _, hfr, _ => by simp [fragAExpr] at hfr
-    | .lambda _ _, _, hfr, _ => by simp [fragAExpr] at hfr
-    | .comp _ _ _, _, hfr, _ => by simp [fragAExpr] at hfr
-  theorem anaA_exprs (fx : Fixes) (reg : Registry) : ∀ (es : List Expr) (st : AState), fragAExprs es = true → st.inFunc = false →
-      AnaA st (runOps reg st (cExprs fx es)) (namesOfs es)
-    | [], st, _, _ => by simp only [cExprs, namesOfs]; exact AnaA.refl st
-    | e :: es, st, hfr, hf => by
-      simp only [fragAExprs, Bool.and_eq_true] at hfr
-      simp only [cExprs, namesOfs]
-      have h1 := anaA_expr fx reg e st hfr.1 hf
-      exact AnaA.append h1 (anaA_exprs fx reg es _ hfr.2 (by rw [h1.inFunc, hf]))
+  theorem fragA_B_expr : ∀ e : Expr, fragAExpr e = true → fragBExpr false e = true
+    | .name n, h => by simpa [fragAExpr, fragBExpr] using h
+    | .const, _ => rfl
+    | .bool _, _ => rfl
+    | .str _, _ => rfl
+    | .binop l r, h => by
+      simp only [fragAExpr, Bool.and_eq_true] at h
+      simp only [fragBExpr, Bool.and_eq_true]; exact ⟨fragA_B_expr l h.1, fragA_B_expr r h.2⟩
+    | .ifExp t a b, h => by
+      simp only [fragAExpr, Bool.and_eq_true] at h
+      simp only [fragBExpr, Bool.and_eq_true]; exact ⟨⟨fragA_B_expr t h.1.1, fragA_B_expr a h.1.2⟩, fragA_B_expr b h.2⟩
+    | .tuple es, h => by simp only [fragAExpr] at h; simp only [fragBExpr]; exact fragA_B_exprs es h
+    | .list es, h => by simp only [fragAExpr] at h; simp only [fragBExpr]; exact fragA_B_exprs es h
+    | .subscript v i, h => by
+      simp only [fragAExpr, Bool.and_eq_true] at h
+      simp only [fragBExpr, Bool.and_eq_true]; exact ⟨fragA_B_expr v h.1, fragA_B_expr i h.2⟩
+    | .attr _ _, h => by simp [fragAExpr] at h
+    | .call _ _, h => by simp [fragAExpr] at h
+    | .lambda _ _, h => by simp [fragAExpr] at h
+    | .comp _ _ _, h => by simp [fragAExpr] at h
+  theorem fragA_B_exprs : ∀ es : List Expr, fragAExprs es = true → fragBExprs false es = true
+    | [], _ => rfl
+    | e :: es, h => by
+      simp only [fragAExprs, Bool.and_eq_true] at h
+      simp only [fragBExprs, Bool.and_eq_true]; exact ⟨fragA_B_expr e h.1, fragA_B_exprs es h.2⟩
 end
 
-mutual
-  theorem names_simple : ∀ e : Expr, fragAExpr e = true → ∀ n ∈ namesOf e, simpleName n = true
-    | .name n, hfr, m, hm => by
-      simp only [namesOf, List.mem_singleton] at hm; subst hm; simpa [fragAExpr] using hfr
-    | .const, _, m, hm => by simp [namesOf] at hm
-    | .bool _, _, m, hm => by simp [namesOf] at hm
-    | .str _, _, m, hm => by simp [namesOf] at hm
-    | .binop l r, hfr, m, hm => by
-      simp only [fragAExpr, Bool.and_eq_true] at hfr
-      simp only [namesOf, List.mem_append] at hm
-      rcases hm with hm | hm
-      · exact names_simple l hfr.1 m hm
-      · exact names_simple r hfr.2 m hm
-    | .subscript v i, hfr, m, hm => by
-      simp only [fragAExpr, Bool.and_eq_true] at hfr
-      simp only [namesOf, List.mem_append] at hm
-      rcases hm with hm | hm
-      · exact names_simple v hfr.1 m hm
-      · exact names_simple i hfr.2 m hm
-    | .ifExp t a b, hfr, m, hm => by
-      simp only [fragAExpr, Bool.and_eq_true] at hfr
-      simp only [namesOf, List.mem_append] at hm
-      rcases hm with (hm | hm) | hm
-      · exact names_simple t hfr.1.1 m hm
-      · exact names_simple a hfr.1.2 m hm
-      · exact names_simple b hfr.2 m hm
-    | .tuple es, hfr, m, hm => by
-      simp only [fragAExpr] at hfr; simp only [namesOf] at hm; exact names_simples es hfr m hm
-    | .list es, hfr, m, hm => by
-      simp only [fragAExpr] at hfr; simp only [namesOf] at hm; exact names_simples es hfr m hm
-    | .attr _ _, hfr, _, _ => by simp [fragAExpr] at hfr
-    | .call _ _, hfr, _, _ => by simp [fragAExpr] at hfr
-    | .lambda _ _, hfr, _, _ => by simp [fragAExpr] at hfr
-    | .comp _ _ _, hfr, _, _ => by simp [fragAExpr] at hfr
-  theorem names_simples : ∀ es : List Expr, fragAExprs es = true → ∀ n ∈ namesOfs es, simpleName n = true
-    | [], _, m, hm => by simp [namesOfs] at hm
-    | e :: es, hfr, m, hm => by
-      simp only [fragAExprs, Bool.and_eq_true] at hfr
-      simp only [namesOfs, List.mem_append] at hm
-      rcases hm with hm | hm
-      · exact names_simple e hfr.1 m hm
-      · exact names_simples es hfr.2 m hm
-end
+theorem fragA_B_stmt : ∀ s : Stmt, fragAStmt s = true → fragBStmt false s = true
+  | .expr e, h => by simp only [fragAStmt] at h; simp only [fragBStmt]; exact fragA_B_expr e h
+  | .assign ts e, h => by
+    simp only [fragAStmt, Bool.and_eq_true] at h
+    simp only [fragBStmt, Bool.and_eq_true]; exact ⟨h.1, fragA_B_expr e h.2⟩
+  | .pass, _ => rfl
+  | .located _ s, h => by simp only [fragAStmt] at h; simp only [fragBStmt]; exact fragA_B_stmt s h
+  | .augAssign _ _, h => by simp [fragAStmt] at h
+  | .annAssign _ _ _, h => by simp [fragAStmt] at h
+  | .import_ _, h => by simp [fragAStmt] at h
+  | .importFrom _ _, h => by simp [fragAStmt] at h
+  | .funcDef _ _ _ _ _, h => by simp [fragAStmt] at h
+  | .classDef _ _ _ _, h => by simp [fragAStmt] at h
+  | .for_ _ _ _ _, h => by simp [fragAStmt] at h
+  | .while_ _ _ _, h => by simp [fragAStmt] at h
+  | .if_ _ _ _, h => by simp [fragAStmt] at h
+  | .with_ _ _, h => by simp [fragAStmt] at h
+  | .try_ _ _ _ _, h => by simp [fragAStmt] at h
+  | .return_ _, h => by simp [fragAStmt] at h
+  | .raise_ _, h => by simp [fragAStmt] at h
+  | .delete _, h => by simp [fragAStmt] at h
+  | .global_ _, h => by simp [fragAStmt] at h
+  | .nonlocal_ _, h => by simp [fragAStmt] at h
 
-/-! ### the simulation -/
+theorem fragA_B {prog : List Stmt} (h : fragA prog = true) : fragB false prog = true := by
+  simp only [fragA, fragB, List.all_eq_true] at h ⊢
+  exact fun s hs => fragA_B_stmt s (h s hs)
 
-theorem assocGet_assocSet_eq {β} (k : Str) (v : β) (l : List (Str × β)) : assocGet k (assocSet k v l) = some v := by
-  induction l with
-  | nil => simp [assocSet, assocGet]
-  | cons a r ih =>
-    obtain ⟨k', v'⟩ := a
-    unfold assocSet
-    split
-    · simp [assocGet]
-    · rename_i hne; simp [assocGet, hne, ih]
-
-theorem assocGet_assocSet_ne {β} {k n : Str} (h : n ≠ k) (v : β) (l : List (Str × β)) :
-    assocGet n (assocSet k v l) = assocGet n l := by
-  induction l with
-  | nil => simp [assocSet, assocGet, Ne.symm h]
-  | cons a r ih =>
-    obtain ⟨k', v'⟩ := a
-    unfold assocSet
-    split
-    · rename_i hk; subst hk; simp [assocGet, Ne.symm h]
-    · simp only [assocGet]; split
-      · rfl
-      · exact ih
-
-structure Corr (s : XState) (st : AState) : Prop where
-  names : ∀ n, simpleName n = true → (unboundX s n ↔ unboundA st n)
-  noStar : noStarA st
-  ne : ∀ n ∈ s.ne, ∃ m ∈ st.missing, m.name = n
-  inFunc : st.inFunc = false
-  topMem : st.stack.top ∈ normIds st.stack.ids
-  topLt : st.stack.top < st.heap.length
-
-theorem Corr.ana {s : XState} {st st' : AState} {N : List Str} (h : Corr s st) (a : AnaA st st' N) : Corr s st' := by
-  constructor
-  · intro n hn; rw [h.names n hn]; unfold unboundA; rw [a.heap, a.stack]
-  · unfold noStarA; rw [a.heap, a.stack]; exact h.noStar
-  · intro n hn; obtain ⟨m, hm, hmn⟩ := h.ne n hn; exact ⟨m, a.mono m hm, hmn⟩
-  · rw [a.inFunc]; exact h.inFunc
-  · rw [a.stack]; exact h.topMem
-  · rw [a.stack, a.heap]; exact h.topLt
-
-theorem mem_addOnce {n m : Str} {l : List Str} (h : m ∈ addOnce n l) : m ∈ l ∨ m = n := by
-  unfold addOnce at h
-  split at h
-  · exact .inl h
-  · rcases List.mem_append.mp h with h | h
-    · exact .inl h
-    · exact .inr (by simpa using h)
-
-/-- evaluating and analysing one fragment-A expression, in lock step -/
-theorem corr_expr (fx : Fixes) (reg : Registry) {s : XState} {st : AState} (h : Corr s st) (f : Nat) (e : Expr)
-    (hfr : fragAExpr e = true) :
-    AnaA st (runOps reg st (cExpr fx e)) (namesOf e) ∧
-    (∀ n ∈ (evalExpr f {} e s).1.ne, ∃ m ∈ (runOps reg st (cExpr fx e)).missing, m.name = n) ∧
-    (∀ v, (evalExpr f {} e s).2 = .ok v → (evalExpr f {} e s).1 = s ∧
-        (noIfExpr e = true → (runOps reg st (cExpr fx e)).missing = st.missing)) ∧
-    (∀ x, (evalExpr f {} e s).2 = .error x → SameUpToLog s (evalExpr f {} e s).1) := by
-  have hA := anaA_expr fx reg e st hfr h.inFunc
-  have hE := (evalA f).1 e s hfr
-  refine ⟨hA, ?_, ?_, fun x hx => (hE.err x hx).1⟩
-  · intro n hn
-    cases hr : (evalExpr f {} e s).2 with
-    | ok v =>
-      rw [(hE.ok v hr).1] at hn
-      obtain ⟨m, hm, hmn⟩ := h.ne n hn
-      exact ⟨m, hA.mono m hm, hmn⟩
-    | error x =>
-      obtain ⟨_, h2⟩ := hE.err x hr
-      rcases h2 with ⟨n', _, hne, hmem, hu⟩ | ⟨_, hne⟩
-      · rw [hne] at hn
-        rcases mem_addOnce hn with hn | rfl
-        · obtain ⟨m, hm, hmn⟩ := h.ne n hn
-          exact ⟨m, hA.mono m hm, hmn⟩
-        · have hsn := names_simple e hfr n hmem
-          exact hA.found n hmem hsn ((h.names n hsn).mp hu) h.noStar
-      · rw [hne] at hn
-        obtain ⟨m, hm, hmn⟩ := h.ne n hn
-        exact ⟨m, hA.mono m hm, hmn⟩
-  · intro v hv
-    refine ⟨(hE.ok v hv).1, fun hno => ?_⟩
-    apply hA.same
-    intro n hn hun
-    exact (hE.ok v hv).2 hno n hn ((h.names n (names_simple e hfr n hn)).mpr hun)
-
-theorem foldl_deferGlobal_shape (reg : Registry) : ∀ (ns : List Str) (st : AState),
-    (ns.foldl (deferGlobal reg) st).heap = st.heap ∧ (ns.foldl (deferGlobal reg) st).stack = st.stack ∧
-    (ns.foldl (deferGlobal reg) st).inFunc = st.inFunc ∧ (ns.foldl (deferGlobal reg) st).missing = st.missing
-  | [], _ => ⟨rfl, rfl, rfl, rfl⟩
-  | a :: r, st => by
-    simp only [List.foldl_cons]
-    have h1 : (deferGlobal reg st a).heap = st.heap ∧ (deferGlobal reg st a).stack = st.stack ∧
-        (deferGlobal reg st a).inFunc = st.inFunc ∧ (deferGlobal reg st a).missing = st.missing := by
-      unfold deferGlobal; dsimp only; split <;> exact ⟨rfl, rfl, rfl, rfl⟩
-    obtain ⟨i1, i2, i3, i4⟩ := foldl_deferGlobal_shape reg r (deferGlobal reg st a)
-    exact ⟨i1.trans h1.1, i2.trans h1.2.1, i3.trans h1.2.2.1, i4.trans h1.2.2.2⟩
-
-/-- analysis-only facts about the part of `visit_Assign` after the value -/
-theorem allNames_shape (reg : Registry) (st : AState) (ns : List Str) (hf : st.inFunc = false) :
-    (runOps reg st [.allNames ns]).heap = st.heap ∧ (runOps reg st [.allNames ns]).stack = st.stack ∧
-    (runOps reg st [.allNames ns]).inFunc = st.inFunc ∧ (runOps reg st [.allNames ns]).missing = st.missing := by
-  have : runOps reg st [.allNames ns] = ns.foldl (deferGlobal reg) st := by
-    simp [runOps, step, hf]
-  rw [this]
-  exact foldl_deferGlobal_shape reg ns st
-
-theorem cAll_cases (x : Str) (e : Expr) :
-    cAll [Expr.name x] e = [] ∨ (x = "__all__".toList ∧ ∃ ns, cAll [Expr.name x] e = [Op.allNames ns]) := by
-  unfold cAll
-  simp only [singleName]
-  split
-  · rename_i n es h1 _
-    cases h1
-    split
-    · rename_i hx
-      split
-      · exact .inr ⟨hx, _, rfl⟩
-      · exact .inl rfl
-    · exact .inl rfl
-  · exact .inl rfl
-
-/-- the analysis of `x = e` after the value has been visited: store, then possibly `__all__` bookkeeping -/
-theorem assign_tail (fx : Fixes) (reg : Registry) (st : AState) (x : Str) (e : Expr) (hf : st.inFunc = false) :
-    let tail := cTargets fx [Expr.name x] ++ cAll [Expr.name x] e
-    (runOps reg st tail).heap = (storeTop st x).heap ∧ (runOps reg st tail).stack = st.stack ∧
-    (runOps reg st tail).inFunc = false ∧ (runOps reg st tail).missing = st.missing ∧
-    (x ≠ "__all__".toList → (runOps reg st tail).deferred = st.deferred) := by
-  intro tail
-  have hst : runOps reg st (cTargets fx [Expr.name x]) = storeTop st x := by
-    simp [cTargets, cTarget, runOps, step]
-  rcases cAll_cases x e with h0 | ⟨hx, ns, h1⟩
-  · have : tail = cTargets fx [Expr.name x] := by simp only [tail, h0, List.append_nil]
-    rw [this, hst]
-    exact ⟨rfl, rfl, hf, rfl, fun _ => rfl⟩
-  · have : tail = cTargets fx [Expr.name x] ++ [Op.allNames ns] := by simp only [tail, h1]
-    rw [this, runOps_append, hst]
-    obtain ⟨a1, a2, a3, a4⟩ := allNames_shape reg (storeTop st x) ns hf
-    exact ⟨a1, a2, a3.trans hf, a4, fun hne => absurd hx hne⟩
-
-/-! ### statements -/
-
-theorem runOps_setLine (reg : Registry) (st : AState) (l : Nat) (ops : List Op) :
-    runOps reg st (.setLine l :: ops) = runOps reg { st with line := l } ops := rfl
-
-/-- analysis only: missing names are never dropped on fragment A and we stay outside function bodies -/
-theorem anaStmt (fx : Fixes) (reg : Registry) : ∀ (stmt : Stmt) (ln : Nat) (st : AState), fragAStmt stmt = true → st.inFunc = false →
-    (∀ m ∈ st.missing, m ∈ (runOps reg st (cStmt fx ln stmt)).missing) ∧ (runOps reg st (cStmt fx ln stmt)).inFunc = false
-  | .expr e, ln, st, hfr, hf => by
-    simp only [cStmt]
-    have h := anaA_expr fx reg e st (by simpa [fragAStmt] using hfr) hf
-    exact ⟨h.mono, by rw [h.inFunc, hf]⟩
-  | .assign ts e, ln, st, hfr, hf => by
-    simp only [fragAStmt, Bool.and_eq_true] at hfr
-    cases hsn : singleName ts with
-    | none => rw [hsn] at hfr; simp at hfr
-    | some x =>
-      have hts := singleName_eq hsn
-      subst hts
-      simp only [cStmt, List.append_assoc]
-      rw [runOps_append]
-      have h := anaA_expr fx reg e st hfr.2 hf
-      obtain ⟨_, _, t3, t4, _⟩ := assign_tail fx reg (runOps reg st (cExpr fx e)) x e (by rw [h.inFunc, hf])
-      exact ⟨fun m hm => by rw [t4]; exact h.mono m hm, t3⟩
-  | .pass, ln, st, _, hf => by simp only [cStmt]; exact ⟨fun _ h => h, hf⟩
-  | .located l s, ln, st, hfr, hf => by
-    simp only [cStmt, runOps_setLine]
-    exact anaStmt fx reg s l { st with line := l } (by simpa [fragAStmt] using hfr) hf
-  | .augAssign _ _, _, _, hfr, _ => by simp [fragAStmt] at hfr
-  | .annAssign _ _ _, _, _, hfr, _ => by simp [fragAStmt] at hfr
-  | .import_ _, _, _, hfr, _ => by simp [fragAStmt] at hfr
-  | .importFrom _ _, _, _, hfr, _ => by simp [fragAStmt] at hfr
-  | .funcDef _ _ _ _ _, _, _, hfr, _ => by simp [fragAStmt] at hfr
-  | .classDef _ _ _ _, _, _, hfr, _ => by simp [fragAStmt] at hfr
-  | .for_ _ _ _ _, _, _, hfr, _ => by simp [fragAStmt] at hfr
-  | .while_ _ _ _, _, _, hfr, _ => by simp [fragAStmt] at hfr
-  | .if_ _ _ _, _, _, hfr, _ => by simp [fragAStmt] at hfr
-  | .with_ _ _, _, _, hfr, _ => by simp [fragAStmt] at hfr
-  | .try_ _ _ _ _, _, _, hfr, _ => by simp [fragAStmt] at hfr
-  | .return_ _, _, _, hfr, _ => by simp [fragAStmt] at hfr
-  | .raise_ _, _, _, hfr, _ => by simp [fragAStmt] at hfr
-  | .delete _, _, _, hfr, _ => by simp [fragAStmt] at hfr
-  | .global_ _, _, _, hfr, _ => by simp [fragAStmt] at hfr
-  | .nonlocal_ _, _, _, hfr, _ => by simp [fragAStmt] at hfr
-
-theorem anaStmts (fx : Fixes) (reg : Registry) : ∀ (ss : List Stmt) (ln : Nat) (st : AState), fragA ss = true → st.inFunc = false →
-    (∀ m ∈ st.missing, m ∈ (runOps reg st (cStmts fx ln ss)).missing) ∧ (runOps reg st (cStmts fx ln ss)).inFunc = false
-  | [], _, st, _, hf => by simp only [cStmts]; exact ⟨fun _ h => h, hf⟩
-  | s :: ss, ln, st, hfr, hf => by
-    simp only [fragA, List.all_cons, Bool.and_eq_true] at hfr
-    simp only [cStmts, runOps_append]
-    obtain ⟨h1, h2⟩ := anaStmt fx reg s ln st hfr.1 hf
-    obtain ⟨h3, h4⟩ := anaStmts fx reg ss ln _ (by simpa [fragA] using hfr.2) h2
-    exact ⟨fun m hm => h3 m (h1 m hm), h4⟩
-
-/-- `x = v` in the reference semantics at module level: binds `x` in the globals, or runs out of fuel -/
-theorem assignAll_name (f : Nat) (x : Str) (v : RVal) (s : XState) :
-    (assignAll f {} [.name x] v s = ({ s with globals := assocSet x v s.globals }, .ok ())) ∨
-    (assignAll f {} [.name x] v s = (s, .error .fuel)) := by
-  match f with
-  | 0 => right; rfl
-  | 1 => right; rfl
-  | f + 2 =>
-    left
-    simp only [assignAll, bindTarget, bindName, X.bind_def, X.modify]
-    rfl
-
-theorem simpleName_ne_star {x : Str} (h : simpleName x = true) : x ≠ ['*'] := by
-  simp only [simpleName, Bool.and_eq_true, bne_iff_ne, ne_eq] at h
-  exact h.2
-
-theorem scope_get_set_eq (sc : Scope) (x : Str) (v : Val) : (sc.set x v).get x = some v := by
-  simp [Scope.get, Scope.set, assocGet_assocSet_eq]
-
-theorem scope_get_set_ne (sc : Scope) {x n : Str} (h : n ≠ x) (v : Val) : (sc.set x v).get n = sc.get n := by
-  simp [Scope.get, Scope.set, assocGet_assocSet_ne h]
-
-/-- binding `x` on both sides keeps the correspondence -/
-theorem corr_store {s : XState} {st1 st2 : AState} (h : Corr s st1) (x : Str) (v : RVal) (hx : simpleName x = true)
-    (hheap : st2.heap = (storeTop st1 x).heap) (hstack : st2.stack = st1.stack) (hf : st2.inFunc = false)
-    (hmiss : st2.missing = st1.missing) :
-    Corr { s with globals := assocSet x v s.globals } st2 := by
-  have hget : ∀ i n, (st2.heap.get i).get n =
-      if i = st1.stack.top then ((st1.heap.get i).set x .none).get n else (st1.heap.get i).get n := by
-    intro i n
-    rw [hheap]
-    simp only [storeTop, Heap.get_update]
-    by_cases hi : i = st1.stack.top
-    · subst hi; simp [h.topLt]
-    · simp [hi]
-  constructor
-  · intro n hn
-    by_cases hnx : n = x
-    · subst hnx
-      constructor
-      · intro hu; exfalso
-        have := hu.1
-        simp only [assocGet_assocSet_eq] at this
-        cases this
-      · intro hu; exfalso
-        have := hu st1.stack.top (by rw [hstack]; exact h.topMem)
-        rw [hget, if_pos rfl, scope_get_set_eq] at this
-        cases this
-    · have h1 : unboundX { s with globals := assocSet x v s.globals } n ↔ unboundX s n := by
-        unfold unboundX; simp only [assocGet_assocSet_ne hnx]
-      have h2 : unboundA st2 n ↔ unboundA st1 n := by
-        unfold unboundA
-        rw [hstack]
-        constructor
-        · intro hu i hi
-          have := hu i hi
-          rw [hget] at this
-          split at this
-          · rwa [scope_get_set_ne _ hnx] at this
-          · exact this
-        · intro hu i hi
-          rw [hget]
-          split
-          · rw [scope_get_set_ne _ hnx]; exact hu i hi
-          · exact hu i hi
-      rw [h1, h2]; exact h.names n hn
-  · have hstar := h.noStar
-    unfold noStarA hasStar at hstar ⊢
-    rw [hstack]
-    rw [List.any_eq_false] at hstar ⊢
-    intro i hi
-    have := hstar i hi
-    rw [hget]
-    split
-    · rename_i hit
-      rw [scope_get_set_ne _ (Ne.symm (simpleName_ne_star hx))]
-      exact this
-    · exact this
-  · intro n hn; rw [hmiss]; exact h.ne n hn
-  · exact hf
-  · rw [hstack]; exact h.topMem
-  · rw [hstack, hheap]; simp only [storeTop, Heap.length_update]; exact h.topLt
-
-theorem Corr.setLine {s : XState} {st : AState} (h : Corr s st) (l : Nat) : Corr s { st with line := l } :=
-  ⟨h.names, h.noStar, h.ne, h.inFunc, h.topMem, h.topLt⟩
-
-/-- one statement of fragment A, reference semantics and analysis in lock step -/
-theorem stmtA (fx : Fixes) (reg : Registry) : ∀ (stmt : Stmt) (f : Nat) (s : XState) (st : AState) (ln : Nat),
-    fragAStmt stmt = true → Corr s st →
-    (∀ n ∈ (execStmt f {} stmt s).1.ne, ∃ m ∈ (runOps reg st (cStmt fx ln stmt)).missing, m.name = n) ∧
-    (∀ fl, (execStmt f {} stmt s).2 = .ok fl →
-      fl = Flow.normal ∧ Corr (execStmt f {} stmt s).1 (runOps reg st (cStmt fx ln stmt)) ∧
-      (plainStmt stmt = true → (runOps reg st (cStmt fx ln stmt)).missing = st.missing ∧
-        (runOps reg st (cStmt fx ln stmt)).deferred = st.deferred))
-  | stmt, 0, s, st, ln, hfr, h => by
-    have hm := (anaStmt fx reg stmt ln st hfr h.inFunc).1
-    rw [execStmt]
-    refine ⟨fun n hn => ?_, fun fl hfl => by cases hfl⟩
-    obtain ⟨m, hmm, hmn⟩ := h.ne n hn
-    exact ⟨m, hm m hmm, hmn⟩
-  | .expr e, f + 1, s, st, ln, hfr, h => by
-    have hfe : fragAExpr e = true := by simpa [fragAStmt] using hfr
-    obtain ⟨hA, hne, hok, _⟩ := corr_expr fx reg h f e hfe
-    simp only [execStmt, cStmt, X.bind_def]
-    cases hr : evalExpr f {} e s with
-    | mk s' r =>
-      rw [hr] at hne hok
-      cases r with
-      | error x => exact ⟨hne, fun fl hfl => by cases hfl⟩
-      | ok v =>
-        obtain ⟨hs, hno⟩ := hok v rfl
-        simp only at hs; subst hs
-        refine ⟨hne, fun fl hfl => ?_⟩
-        have : fl = Flow.normal := by
-          have := hfl; simp only [X.pure_def] at this; cases this; rfl
-        refine ⟨this, h.ana hA, fun hp => ⟨hno (by simpa [plainStmt] using hp), hA.deferred⟩⟩
-  | .assign ts e, f + 1, s, st, ln, hfr, h => by
-    simp only [fragAStmt, Bool.and_eq_true] at hfr
-    cases hsn : singleName ts with
-    | none => rw [hsn] at hfr; simp at hfr
-    | some x =>
-      have hts := singleName_eq hsn
-      subst hts
-      rw [hsn] at hfr
-      have hx : simpleName x = true := hfr.1
-      obtain ⟨hA, hne, hok, _⟩ := corr_expr fx reg h f e hfr.2
-      have hf1 : (runOps reg st (cExpr fx e)).inFunc = false := by rw [hA.inFunc, h.inFunc]
-      obtain ⟨t1, t2, t3, t4, t5⟩ := assign_tail fx reg (runOps reg st (cExpr fx e)) x e hf1
-      simp only [execStmt, cStmt, List.append_assoc, X.bind_def]
-      rw [runOps_append]
-      cases hr : evalExpr f {} e s with
-      | mk s' r =>
-        rw [hr] at hne hok
-        cases r with
-        | error err =>
-          refine ⟨fun n hn => ?_, fun fl hfl => by cases hfl⟩
-          obtain ⟨m, hm, hmn⟩ := hne n hn
-          exact ⟨m, by rw [t4]; exact hm, hmn⟩
-        | ok v =>
-          obtain ⟨hs, hno⟩ := hok v rfl
-          simp only at hs; subst hs
-          simp only
-          rcases assignAll_name f x v s' with ha | ha
-          · rw [ha]
-            simp only [X.pure_def]
-            have hc := corr_store (h.ana hA) x v hx t1 t2 t3 t4
-            refine ⟨fun n hn => hc.ne n hn, fun fl hfl => ?_⟩
-            have : fl = Flow.normal := by cases hfl; rfl
-            refine ⟨this, hc, fun hp => ?_⟩
-            simp only [plainStmt, hsn, Bool.and_eq_true, bne_iff_ne, ne_eq, Option.some.injEq] at hp
-            exact ⟨by rw [t4]; exact hno hp.1, by rw [t5 hp.2]; exact hA.deferred⟩
-          · rw [ha]
-            refine ⟨fun n hn => ?_, fun fl hfl => by cases hfl⟩
-            obtain ⟨m, hm, hmn⟩ := (h.ana hA).ne n hn
-            exact ⟨m, by rw [t4]; exact hm, hmn⟩
-  | .pass, f + 1, s, st, ln, _, h => by
-    simp only [execStmt, cStmt, X.pure_def]
-    exact ⟨h.ne, fun fl hfl => ⟨by cases hfl; rfl, h, fun _ => ⟨rfl, rfl⟩⟩⟩
-  | .located l s', f + 1, s, st, ln, hfr, h => by
-    simp only [execStmt, cStmt, runOps_setLine]
-    have := stmtA fx reg s' f s { st with line := l } l (by simpa [fragAStmt] using hfr) (h.setLine l)
-    refine ⟨this.1, fun fl hfl => ?_⟩
-    obtain ⟨a, b, c⟩ := this.2 fl hfl
-    exact ⟨a, b, fun hp => c (by simpa [plainStmt] using hp)⟩
-  | .augAssign _ _, _ + 1, _, _, _, hfr, _ => by simp [fragAStmt] at hfr
-  | .annAssign _ _ _, _ + 1, _, _, _, hfr, _ => by simp [fragAStmt] at hfr
-  | .import_ _, _ + 1, _, _, _, hfr, _ => by simp [fragAStmt] at hfr
-  | .importFrom _ _, _ + 1, _, _, _, hfr, _ => by simp [fragAStmt] at hfr
-  | .funcDef _ _ _ _ _, _ + 1, _, _, _, hfr, _ => by simp [fragAStmt] at hfr
-  | .classDef _ _ _ _, _ + 1, _, _, _, hfr, _ => by simp [fragAStmt] at hfr
-  | .for_ _ _ _ _, _ + 1, _, _, _, hfr, _ => by simp [fragAStmt] at hfr
-  | .while_ _ _ _, _ + 1, _, _, _, hfr, _ => by simp [fragAStmt] at hfr
-  | .if_ _ _ _, _ + 1, _, _, _, hfr, _ => by simp [fragAStmt] at hfr
-  | .with_ _ _, _ + 1, _, _, _, hfr, _ => by simp [fragAStmt] at hfr
-  | .try_ _ _ _ _, _ + 1, _, _, _, hfr, _ => by simp [fragAStmt] at hfr
-  | .return_ _, _ + 1, _, _, _, hfr, _ => by simp [fragAStmt] at hfr
-  | .raise_ _, _ + 1, _, _, _, hfr, _ => by simp [fragAStmt] at hfr
-  | .delete _, _ + 1, _, _, _, hfr, _ => by simp [fragAStmt] at hfr
-  | .global_ _, _ + 1, _, _, _, hfr, _ => by simp [fragAStmt] at hfr
-  | .nonlocal_ _, _ + 1, _, _, _, hfr, _ => by simp [fragAStmt] at hfr
-
-theorem stmtsA (fx : Fixes) (reg : Registry) : ∀ (ss : List Stmt) (f : Nat) (s : XState) (st : AState) (ln : Nat),
-    fragA ss = true → Corr s st →
-    (∀ n ∈ (execStmts f {} ss s).1.ne, ∃ m ∈ (runOps reg st (cStmts fx ln ss)).missing, m.name = n) ∧
-    (∀ fl, (execStmts f {} ss s).2 = .ok fl →
-      Corr (execStmts f {} ss s).1 (runOps reg st (cStmts fx ln ss)) ∧
-      (ss.all plainStmt = true → (runOps reg st (cStmts fx ln ss)).missing = st.missing ∧
-        (runOps reg st (cStmts fx ln ss)).deferred = st.deferred))
-  | ss, 0, s, st, ln, hfr, h => by
-    have hm := (anaStmts fx reg ss ln st hfr h.inFunc).1
-    rw [execStmts]
-    refine ⟨fun n hn => ?_, fun fl hfl => by cases hfl⟩
-    obtain ⟨m, hmm, hmn⟩ := h.ne n hn
-    exact ⟨m, hm m hmm, hmn⟩
-  | [], f + 1, s, st, ln, _, h => by
-    simp only [execStmts, cStmts, X.pure_def]
-    exact ⟨h.ne, fun fl _ => ⟨h, fun _ => ⟨rfl, rfl⟩⟩⟩
-  | stmt :: ss, f + 1, s, st, ln, hfr, h => by
-    simp only [fragA, List.all_cons, Bool.and_eq_true] at hfr
-    have hfr2 : fragA ss = true := by simpa [fragA] using hfr.2
-    obtain ⟨h1, h2⟩ := stmtA fx reg stmt f s st ln hfr.1 h
-    simp only [execStmts, cStmts, runOps_append, X.bind_def]
-    have hAna := anaStmt fx reg stmt ln st hfr.1 h.inFunc
-    cases hr : execStmt f {} stmt s with
-    | mk s' r =>
-      rw [hr] at h1 h2
-      cases r with
-      | error x =>
-        simp only
-        refine ⟨fun n hn => ?_, fun fl hfl => by cases hfl⟩
-        obtain ⟨m, hm, hmn⟩ := h1 n hn
-        exact ⟨m, (anaStmts fx reg ss ln _ hfr2 hAna.2).1 m hm, hmn⟩
-      | ok fl0 =>
-        obtain ⟨hfl0, hc, hp⟩ := h2 fl0 rfl
-        subst hfl0
-        simp only
-        obtain ⟨r1, r2⟩ := stmtsA fx reg ss f s' _ ln hfr2 hc
-        refine ⟨r1, fun fl hfl => ?_⟩
-        obtain ⟨c2, p2⟩ := r2 fl hfl
-        refine ⟨c2, fun hall => ?_⟩
-        simp only [List.all_cons, Bool.and_eq_true] at hall
-        obtain ⟨p1a, p1b⟩ := hp hall.1
-        obtain ⟨p2a, p2b⟩ := p2 hall.2
-        exact ⟨p2a.trans p1a, p2b.trans p1b⟩
-
-/-! ### initial states, final answer -/
-
-theorem mem_insertSorted {x y : Str} {l : List Str} : y ∈ insertSorted x l ↔ y = x ∨ y ∈ l := by
-  induction l with
-  | nil => simp [insertSorted]
-  | cons a r ih =>
-    unfold insertSorted
-    split
-    · rename_i hxa; subst hxa; simp
-    · split
-      · simp
-      · simp only [List.mem_cons, ih]
-        constructor
-        · rintro (h | h | h)
-          · exact .inr (.inl h)
-          · exact .inl h
-          · exact .inr (.inr h)
-        · rintro (h | h | h)
-          · exact .inr (.inl h)
-          · exact .inl h
-          · exact .inr (.inr h)
-
-theorem mem_sortedSet {y : Str} {l : List Str} : y ∈ sortedSet l ↔ y ∈ l := by
-  unfold sortedSet
-  induction l with
-  | nil => simp
-  | cons a r ih => simp only [List.foldr_cons, mem_insertSorted, ih, List.mem_cons]
-
-theorem finishDeferred_mono (reg : Registry) (st : AState) :
-    ∀ m ∈ st.missing, m ∈ (finishDeferred reg st).missing := by
-  unfold finishDeferred
-  have : ∀ (ds : List Deferred) (st : AState), ∀ m ∈ st.missing,
-      m ∈ (ds.foldl (fun st d => checkLoad reg st d.name d.ids d.line) st).missing := by
-    intro ds
-    induction ds with
-    | nil => intro st m hm; exact hm
-    | cons d r ih =>
-      intro st m hm
-      apply ih
-      unfold checkLoad
-      dsimp only
-      split
-      · split
-        · exact hm
-        · exact List.mem_append_left _ hm
-      · exact hm
-  intro m hm
-  exact this _ _ m hm
-
-theorem finishDeferred_nil (reg : Registry) (st : AState) (h : st.deferred = []) :
-    (finishDeferred reg st).missing = st.missing := by
-  unfold finishDeferred
-  rw [h]; rfl
-
-theorem runProgram_ne (fuel : Nat) (body : List Stmt) (s0 : XState) :
-    (runProgram fuel body [] s0).1.ne = (execStmts fuel {} body s0).1.ne := by
-  simp only [runProgram, X.bind_def]
-  cases hr : execStmts fuel {} body s0 with
-  | mk s1 r =>
-    cases r with
-    | error e => rfl
-    | ok fl =>
-      simp only [X.modify]
-      cases fuel with
-      | zero => simp only [execStmts, X.throw]
-      | succ f => simp only [execStmts, X.pure_def]
-
-theorem runProgram_ok (fuel : Nat) (body : List Stmt) (s0 : XState) (h : (runProgram fuel body [] s0).2 = .ok ()) :
-    ∃ fl, (execStmts fuel {} body s0).2 = .ok fl := by
-  simp only [runProgram, X.bind_def] at h
-  cases hr : execStmts fuel {} body s0 with
-  | mk s1 r =>
-    cases r with
-    | error e => rw [hr] at h; cases h
-    | ok fl => exact ⟨fl, rfl⟩
-
-theorem initHeap_user' (builtins : Scope) (ns : List Scope) (a : Nat) (ha : a < ns.length) :
-    (initState builtins ns).heap.get (3 + a) = ns[a] := by
-  rw [initHeap_user builtins ns a ha]; simp [List.getD_eq_getElem?_getD, ha]
-
-theorem init_top (builtins : Scope) (ns : List Scope) : (initState builtins ns).stack.top = 3 + ns.length := by
-  obtain ⟨scopes, hids, _⟩ := initState_ids builtins ns
-  unfold StackRef.top; rw [hids, getLastD_snoc]
-
-theorem init_ids_mem (builtins : Scope) (ns : List Scope) (hnc : ∀ sc ∈ ns, sc.isClass = false) (i : Nat) :
-    i ∈ normIds (initState builtins ns).stack.ids ↔ i = 0 ∨ i = 1 ∨ (∃ a, a < ns.length ∧ i = 3 + a) ∨ i = 3 + ns.length := by
-  rw [(inv_init {} builtins ns).wf]
-  obtain ⟨scopes, hids, hsc⟩ := initState_ids builtins ns
-  rw [hids, List.mem_append, mem_normIds_iff, hsc]
-  simp only [List.mem_filter, mem_normIds_iff, List.mem_map, List.mem_range, List.mem_singleton]
-  constructor
-  · rintro ((h | h | ⟨h, _⟩) | h)
-    · exact .inl h
-    · exact .inr (.inl h)
-    · rcases h with h | h | ⟨a, ha, rfl⟩
-      · exact .inl h
-      · exact .inr (.inl h)
-      · exact .inr (.inr (.inl ⟨a, ha, by omega⟩))
-    · exact .inr (.inr (.inr h))
-  · rintro (h | h | ⟨a, ha, rfl⟩ | h)
-    · exact .inl (.inl h)
-    · exact .inl (.inr (.inl h))
-    · refine .inl (.inr (.inr ⟨.inr (.inr ⟨a, ha, by omega⟩), ?_⟩))
-      rw [initHeap_user' builtins ns a ha]
-      simp [hnc _ (List.getElem_mem ha)]
-    · exact .inr h
-
-theorem corr_init (builtins : Scope) (ns : List Scope) (s0 : XState) (h : Agree builtins ns s0) :
-    Corr s0 (initState builtins ns) := by
-  have hmem := init_ids_mem builtins ns h.noClass
-  have hget0 : (initState builtins ns).heap.get 0 = builtins := rfl
-  have hget1 : (initState builtins ns).heap.get 1 = { items := [("__file__".toList, Val.none)] } := rfl
-  have hb2 : ∀ n : Str, (({ items := [("__file__".toList, Val.none)] } : Scope).get n = none) ↔ n ≠ "__file__".toList := by
-    intro n
-    simp only [Scope.get, assocGet]
-    constructor
-    · intro hh hc; subst hc; simp at hh
-    · intro hh; rw [if_neg (Ne.symm hh)]
-  constructor
-  · intro n hn
-    have hA := h.names n hn
-    constructor
-    · intro hu i hi
-      have hnotR : ¬ (boundIn builtins n = true ∨ n = "__file__".toList ∨ ∃ sc ∈ ns, boundIn sc n = true) := by
-        intro hR
-        rcases hA.mpr hR with hg | hb
-        · rw [hu.1] at hg; cases hg
-        · rw [hu.2] at hb; cases hb
-      rcases (hmem i).mp hi with rfl | rfl | ⟨a, ha, rfl⟩ | rfl
-      · rw [hget0]
-        cases hg : builtins.get n with
-        | none => rfl
-        | some v => exact absurd (.inl (by simp [boundIn, hg])) hnotR
-      · rw [hget1, hb2]
-        intro hc; exact hnotR (.inr (.inl hc))
-      · rw [initHeap_user' builtins ns a ha]
-        cases hg : (ns[a]).get n with
-        | none => rfl
-        | some v => exact absurd (.inr (.inr ⟨_, List.getElem_mem ha, by simp [boundIn, hg]⟩)) hnotR
-      · rw [initHeap_priv]; rfl
-    · intro hu
-      have hnotR : ¬ (boundIn builtins n = true ∨ n = "__file__".toList ∨ ∃ sc ∈ ns, boundIn sc n = true) := by
-        rintro (hR | hR | ⟨sc, hsc, hR⟩)
-        · have := hu 0 ((hmem 0).mpr (.inl rfl))
-          rw [hget0] at this
-          simp [boundIn, this] at hR
-        · have := hu 1 ((hmem 1).mpr (.inr (.inl rfl)))
-          rw [hget1, hb2] at this
-          exact this hR
-        · obtain ⟨a, ha, hsa⟩ := List.getElem_of_mem hsc
-          have := hu (3 + a) ((hmem _).mpr (.inr (.inr (.inl ⟨a, ha, rfl⟩))))
-          rw [initHeap_user' builtins ns a ha, hsa] at this
-          simp [boundIn, this] at hR
-      constructor
-      · cases hg : assocGet n s0.globals with
-        | none => rfl
-        | some v => exact absurd (hA.mp (.inl (by simp [hg]))) hnotR
-      · cases hb : s0.builtins.contains n with
-        | false => rfl
-        | true => exact absurd (hA.mp (.inr hb)) hnotR
-  · unfold noStarA hasStar
-    rw [List.any_eq_false]
-    intro i hi
-    have hi' : i ∈ normIds (initState builtins ns).stack.ids := by
-      rw [(inv_init {} builtins ns).wf]; exact hi
-    rcases (hmem i).mp hi' with rfl | rfl | ⟨a, ha, rfl⟩ | rfl
-    · rw [hget0]; have := h.noStar.1; simpa [boundIn] using this
-    · rw [hget1]; simp [Scope.get, assocGet]
-    · rw [initHeap_user' builtins ns a ha]
-      have := h.noStar.2 _ (List.getElem_mem ha); simpa [boundIn] using this
-    · rw [initHeap_priv]; simp [Scope.get, assocGet]
-  · intro n hn; rw [h.ne0] at hn; simp at hn
-  · rfl
-  · rw [init_top]; exact (hmem _).mpr (.inr (.inr (.inr rfl)))
-  · exact (inv_init {} builtins ns).top_lt
+theorem plainStmt_B : ∀ s : Stmt, plainStmt s = plainStmtB s
+  | .located _ s => by simp only [plainStmt, plainStmtB]; exact plainStmt_B s
+  | .expr _ => rfl
+  | .assign _ _ => rfl
+  | .augAssign _ _ => rfl
+  | .annAssign _ _ _ => rfl
+  | .import_ _ => rfl
+  | .importFrom _ _ => rfl
+  | .funcDef _ _ _ _ _ => rfl
+  | .classDef _ _ _ _ => rfl
+  | .for_ _ _ _ _ => rfl
+  | .while_ _ _ _ => rfl
+  | .if_ _ _ _ => rfl
+  | .with_ _ _ => rfl
+  | .try_ _ _ _ _ => rfl
+  | .return_ _ => rfl
+  | .pass => rfl
+  | .raise_ _ => rfl
+  | .delete _ => rfl
+  | .global_ _ => rfl
+  | .nonlocal_ _ => rfl
 
 end Pfb.C05
